@@ -41,7 +41,13 @@ func (pid *PeerID) UnmarshalText(data []byte) error {
 	if len(data) != enc.EncodedLen(len(pid)) {
 		return errors.New("data is wrong length")
 	}
-	enc.Decode(pid[:], data)
+	var tmp PeerID
+	if n, err := enc.Decode(tmp[:], data); err != nil {
+		return err
+	} else if n != len(tmp) {
+		return errors.New("data is wrong length")
+	}
+	*pid = tmp
 	return nil
 }
 
